@@ -3,7 +3,7 @@
    Property theorems only.  gen/C40_summaries.v is regenerated from the Go
    source on every run. *)
 From Coq Require Import List Bool NArith String.
-From ELA Require Import model.C40_Locks model.C40_Known proof.C40_Locks gen.C40_summaries proof.C40_Gen.
+From ELA Require Import model.C40_Locks model.C40_Known model.C40_Ckpt proof.C40_Locks proof.C40_Ckpt gen.C40_summaries proof.C40_Gen.
 Import ListNotations.
 
 (* If the checker accepts a list of method parts, then for every number of
@@ -54,6 +54,27 @@ Theorem C40_no_race_partial : forall g, In g groups ->
   forall n st, reachable (without (excluded_ids part_names allowed_ids) g) n st -> ~ race st.
 Proof. exact no_race_partial. Qed.
 Print Assumptions C40_no_race_partial.
+
+(* Checkpoint manager (core/checkpoint): in the table regenerated from the
+   source — call sites of Save/Replace/... with the provenance of the value
+   handed over, and the state methods the file goroutine calls on it — no live
+   registered checkpoint is ever read (Snapshot/Serialize/...) in the file
+   goroutine: only results of Snapshot() cross to it.  The check is exact for
+   the model (sound and complete). *)
+Theorem C40_checkpoint_handoff : ~ off_path_live_read ckpt_table.
+Proof. exact checkpoint_handoff. Qed.
+Print Assumptions C40_checkpoint_handoff.
+
+Theorem C40_checkpoint_handoff_exact : forall t,
+  (ckpt_ok t = true -> ~ off_path_live_read t) /\ (ckpt_ok t = false -> off_path_live_read t).
+Proof. intro t; split; [apply ckpt_sound | apply ckpt_complete]. Qed.
+Print Assumptions C40_checkpoint_handoff_exact.
+
+(* non-vacuity: some channel does carry live values, and some channel's
+   handler does read state (the save path) *)
+Example C40_checkpoint_table_nontrivial :
+  existsb r_live ckpt_table = true /\ existsb (fun r => N.ltb 0 (r_state_calls r)) ckpt_table = true.
+Proof. vm_compute. split; reflexivity. Qed.
 
 (* Non-vacuity: three lock groups; each still has more than ten parts after
    the exclusion, including parts that write under the exclusive lock and
